@@ -203,9 +203,9 @@ func runC19(c *core.Ctx) {
 		return
 	}
 	r := c.Rand(19)
-	nCfg := c.Pick(12, 80)
+	nCfg := c.Pick(16, 300)
 	if c.Mode == "plain" {
-		nCfg = c.Pick(30, 300)
+		nCfg = c.Pick(40, 2500)
 	}
 	typeIDs := []int{0, 2, 6, 11, 12} // int8 int32 uint16 float32 float64
 	defer runtime.GOMAXPROCS(runtime.GOMAXPROCS(0))
